@@ -424,7 +424,8 @@ def py_mode_oracle(run: Run, c, rows, att_rec):
         k_impl = same_kept[0] if same_kept else (same[0] if same else None)
         how = ("a kept draw of strictly higher attachment + regularity" if same_kept else
                "a draw of the burn-in phase" if same else "not a draw of that individual at all")
-        shrunk = dict(individual=pid, index=i, n_burn_in_iter_effective=nb, kept_iterations=[kept[0], kept[-1]],
+        shrunk = dict(individual=pid, index=i, variables={n: int(math.prod(c["rec"].snaps[1][n].shape[1:]) or 1) for n in c["names"]},
+                      n_burn_in_iter_effective=nb, kept_iterations=[kept[0], kept[-1]],
                       temperature_inv_when_estimator_called=c["rec"].tinv_est,
                       expected_iteration=k_model, returned_iteration=k_impl, returned_is=how, returned_row=row, expected_row=expected,
                       draws=[draw_record(c, att_rec, k, i, kept) for k in sorted({k_model} | ({k_impl} if k_impl else set()))])
@@ -462,6 +463,15 @@ def py_mean_oracle(run: Run, c, rows):
 
 
 def chain_checks(run: Run, c, acc: Acc):
+    """One recorded run through the oracles; a crash of the harness on one run is reported and does not stop the search."""
+    try:
+        _chain_checks(run, c, acc)
+    except Exception as e:  # noqa
+        import traceback
+        run.broken("search:chain-checks", f"{type(e).__name__}: {e} on {c['inp']}\n{traceback.format_exc()[-1200:]}")
+
+
+def _chain_checks(run: Run, c, acc: Acc):
     """Python-side oracles on one recorded run + Coq literals for the model-side comparison."""
     import torch
     inp, rec, names, chain, nb, n_iter = c["inp"], c["rec"], c["names"], c["chain"], c["nb_eff"], c["inp"]["n_iter"]
@@ -540,6 +550,10 @@ def chain_checks(run: Run, c, acc: Acc):
         run.extra["max_rel_gap_recorded_vs_fresh_loss"] = max(run.extra.get("max_rel_gap_recorded_vs_fresh_loss", 0.0), worst)
     # ---- the extracted rule recomputed in the harness (always runs: needs neither the translation nor Coq)
     meta = dict(inp, n_burn_in_iter_effective=nb)
+    if not expected_kept:
+        run.fail("mcmc:returns-without-kept-draw", f"{algo} returned although no iteration is after burn-in (n_iter={n_iter}, n_burn_in_iter={nb}): "
+                 "the rows cannot be the mean / the lowest-loss draw of the draws kept after burn-in", meta, expected="an error (no draw to return)", observed=rows[0])
+        return
     if algo == "mode_posterior":
         for shrunk, how in py_mode_oracle(run, c, rows, att_rec):
             run.fail("mode:not-the-lowest-loss-draw",
@@ -574,27 +588,27 @@ def chain_checks(run: Run, c, acc: Acc):
     run.sample(dict(kind_="chain", **inp, n_burn_in_effective=nb, kept=kept_n, temperature_inv_when_estimator_called=rec.tinv_est, first_row=rows[0]), limit=4)
 
 
-def run_chain_cases(run, acc: Acc, gen_ok=True, model_ok=True):
+def run_chain_cases(run, acc: Acc, gen_ok=True, model_ok=True, part=""):
     """The model's executable definitions, run inside Coq on the recorded chains (the families run concurrently).  Only the comparison of
     the regenerated kept-draw test needs the generated file; everything else imports the model alone."""
     from concurrent.futures import ThreadPoolExecutor
     if not model_ok:
         run.extra["coq_side_of_the_chain_replay"] = "skipped: the model's executable definitions did not build (reported as broken); python oracles ran"
-        return
+        return {}
     CH = "list (list (list Q * Q * Q))"
     ty_mode = f"Z * Z * list Q * list string * {CH} * list (string * list Q) * list (list (list Q)) * bool"
     ty_mean = f"Z * Z * list string * nat * {CH} * list (string * list Q) * list (list (list Q)) * bool"
     ty_empty = f"Z * Z * list string * nat * {CH}"
     jobs = dict(
-        count=("count", HDR_MODEL, "Z * Z * nat", acc.count, "(fun c => match c with (n, nb, k) => check_count n nb k end)", 400),
-        mode=("mode", HDR_MODEL, ty_mode, acc.mode,
+        count=("count" + part, HDR_MODEL, "Z * Z * nat", acc.count, "(fun c => match c with (n, nb, k) => check_count n nb k end)", 400),
+        mode=("mode" + part, HDR_MODEL, ty_mode, acc.mode,
               "(fun c => match c with (n, nb, tinv, ids, l, impl, h, uh) => check_mode_annealed n nb tinv ids l impl && (negb uh || check_history n nb l h) end)", 8),
-        mean=("mean", HDR_MODEL, ty_mean, acc.mean,
+        mean=("mean" + part, HDR_MODEL, ty_mean, acc.mean,
               "(fun c => match c with (n, nb, ids, dim, l, impl, h, uh) => check_mean (1 # 100000) n nb ids dim l impl && (negb uh || check_history n nb l h) end)", 8),
-        empty=("empty", HDR_MODEL, ty_empty, acc.empty, "(fun c => match c with (n, nb, ids, dim, l) => check_empty n nb ids dim l end)", 8),
+        empty=("empty" + part, HDR_MODEL, ty_empty, acc.empty, "(fun c => match c with (n, nb, ids, dim, l) => check_empty n nb ids dim l end)", 8),
     )
     if gen_ok:
-        jobs["count_gen"] = ("count_gen", HDR, "Z * Z * nat", acc.count,
+        jobs["count_gen"] = ("count_gen" + part, HDR, "Z * Z * nat", acc.count,
                              "(fun c => match c with (n, nb, k) => Nat.eqb (length (filter (fun i => gen_keep i nb) (zrange gen_iter_lo (gen_iter_hi n)))) k end)", 400)
     else:
         run.extra["regenerated_rules_executed"] = "no: translation / proof broken in this run; the model's own rules were executed on the recorded chains"
@@ -608,7 +622,7 @@ def run_chain_cases(run, acc: Acc, gen_ok=True, model_ok=True):
     near = 0
     if bad:
         sub = [acc.mode[i] for i in bad]
-        bad2 = run.vm_bad_indices("mode_lenient", HDR_MODEL, ty_mode, sub,
+        bad2 = run.vm_bad_indices("mode_lenient" + part, HDR_MODEL, ty_mode, sub,
                                   f"(fun c => match c with (n, nb, tinv, ids, l, impl, h, uh) => check_mode_lenient ({coq_Q(NEAR_TIE)}) n nb ids l impl && (negb uh || check_history n nb l h) end)", shard=8)
         near = len(bad) - len(bad2 or [])
         for j in bad2 or []:
@@ -616,14 +630,21 @@ def run_chain_cases(run, acc: Acc, gen_ok=True, model_ok=True):
             run.fail("mode:not-the-lowest-loss-draw", "mode_posterior row is not the first kept draw of minimal attachment + regularity of that individual "
                      "(model executed in Coq on the recorded chain)" + ("" if "chain" in m else "; the harness' own recomputation agreed with the implementation: see `coq_case`"),
                      m if "chain" in m else dict(m, coq_case=acc.mode[bad[j]][:20000]))
-    run.extra["mode_cases_bit_exact"] = len(acc.mode) - len(bad or [])
-    run.extra["mode_cases_float32_near_tie"] = near
+    stats = dict(mode_cases_bit_exact=len(acc.mode) - len(bad or []), mode_cases_float32_near_tie=near,
+                 chains_executed_in_coq=len(acc.mode) + len(acc.mean) + len(acc.empty))
     for i in res["mean"] or []:
         m = acc.mean_meta[i]
         run.fail("mean:not-the-mean-of-kept-draws", "mean_posterior row is not the mean of the draws kept after burn-in (model executed in Coq on the recorded chain)",
                  m if "chain" in m else dict(m, coq_case=acc.mean[i][:20000]))
     for i in res["empty"] or []:
         run.fail("mcmc:raises-with-kept-draws", "the implementation raised although the model keeps at least one draw", acc.empty_meta[i])
+    return stats
+
+
+def merge_stats(run, *stats):
+    for st in stats:
+        for k, v in (st or {}).items():
+            run.extra[k] = run.extra.get(k, 0) + v
 
 
 # ----------------------------------------------------------------------------- C. every kind x algorithm x cohort shape
@@ -753,25 +774,32 @@ def check_scipy(run: Run, model, kind, tag, cname, df, seed, n_jobs=1, settings=
             pos += len(lo)
         model_row = [v for n in names for v in by_name.get(n, [])]
         diverged = len(model_row) != len(row) or any(abs(a - b) > 1e-5 * (1 + abs(b)) for a, b in zip(row, model_row))
-        if diverged:
-            kept_start = len(start_row) == len(row) and all(abs(a - b) <= 1e-6 * (1 + abs(b)) for a, b in zip(row, start_row))
-            run.fail("scipy:row-is-not-unscaling-of-optimiser-result",
-                     "the returned row is not loc + scale * res.x of each variable on its own slice" +
-                     (f": it is the start point although the optimiser returned a point of objective {call['fun']!r} < {f0[0]!r} at the start "
-                      f"(success={call['success']}) - the better point is discarded, the model (result = unscaling(minimise ...)) no longer describes the code"
-                      if kept_start and call["fun"] < f0[0] else ""),
-                     dict(one, res_x=[float(v) for v in call["x"]], scalings={n: dict(loc=lo, scale=sc_) for n, lo, sc_ in call["scal"]},
-                          optimiser_success=call["success"], f_start=f0[0], f_result=call["fun"], start_row=start_row),
-                     expected=model_row, observed=row)
         # from scratch, on the caller's rows of that identifier
         try:
             st, _ = fresh_state(model, df[df.ID.astype(str) == pid], kind)
             f_res = fresh_objective(model, st, names, dims, row)
             f_start = fresh_objective(model, st, names, dims, start_row)
+            f_model = fresh_objective(model, st, names, dims, model_row) if diverged and len(model_row) == len(row) else None
         except Exception as e:
             run.fail(f"oracle:fresh-objective-raises:{type(e).__name__}", f"recomputing the objective on a fresh state raised: {e}", one)
             continue
         tol = 1e-4 * (1 + abs(f_start))
+        if diverged:
+            # a guard that keeps a BETTER point than res.x (e.g. the start when the optimiser worsened it) is no concern of the property; returning a
+            # point that is WORSE than the result the code had in hand means the theorems (stated for unscaling(minimise ...)) no longer describe the code
+            worse = f_model is None or f_res > f_model + 1e-4 * (1 + abs(f_model))
+            run.count("scipy_row_differs_from_unscaling_of_res_x", "and is worse than it" if worse else "but is not worse than it (a guard?)")
+            if worse:
+                kept_start = len(start_row) == len(row) and all(abs(x - y) <= 1e-6 * (1 + abs(y)) for x, y in zip(row, start_row))
+                run.fail("scipy:row-is-not-unscaling-of-optimiser-result",
+                         f"the returned row is not loc + scale * res.x of each variable on its own slice, and its objective {f_res!r} (fresh state, that individual's "
+                         f"own data) is higher than {f_model!r} at loc + scale * res.x" +
+                         (f": it is the start point although the optimiser returned a point of objective {call['fun']!r} < {f0[0]!r} at the start "
+                          f"(success={call['success']}) - the better point is discarded; the model (result = unscaling(minimise ...)) no longer describes the code"
+                          if kept_start and call["fun"] < f0[0] else ""),
+                         dict(one, res_x=[float(v) for v in call["x"]], scalings={n: dict(loc=lo, scale=sc_) for n, lo, sc_ in call["scal"]},
+                              optimiser_success=call["success"], f_start=f0[0], f_result=call["fun"], start_row=start_row),
+                         expected=model_row, observed=row)
         if not (f_res <= f_start + tol):
             run.fail("non-worsening:fresh", "objective of the returned parameters, recomputed on a fresh state with that individual's own data, "
                      "is worse than at the start point", one, expected=f"<= {f_start!r}", observed=f_res)
@@ -936,8 +964,8 @@ def estimator_probes(run: Run, live, n_cases: int, model_ok=True):
                     tie = d1 is not None and col[d1] == col[d0]
                     two = sorted({d0} | ({d1} if d1 is not None else set()))
                     found = ("mode:estimator-probe:tie-not-first-index" if tie else "mode:estimator-probe:not-the-lowest-loss-draw",
-                             ("on an exact tie of attachment + regularity between two different draws the estimator returns the later one (the rule extracted "
-                              "from the source and torch.argmin's documented convention: the first)" if tie else
+                             ("on an exact tie of attachment + regularity between different draws the estimator does not return the first one (the rule extracted "
+                              "from the source, which is torch.argmin's documented convention)" if tie else
                               "the estimator returns a draw whose attachment + regularity is not minimal") + f"; temperature_inv of the algorithm object: {tinv}",
                              dict(base, n_draws=len(two), n_ind=1, individual=i, draws=[dict(index=d, values=flat[d][i], attachment=a[d][i], regularity=r[d][i]) for d in two],
                                   full_history=dict(values=[[flat[d][i]] for d in range(n_kept)], attachments=[[a[d][i]] for d in range(n_kept)],
@@ -1026,6 +1054,9 @@ def check(run: Run, gen_ok=True, model_ok=True):
     # ---- A
     scalings_cases(run, 400 if thorough else 120)
     # ---- B: grid on a small logistic model
+    from concurrent.futures import ThreadPoolExecutor
+    pool = ThreadPoolExecutor(1)
+    fut_grid = None
     acc = Acc()
     live = {}
     try:
@@ -1061,8 +1092,11 @@ def check(run: Run, gen_ok=True, model_ok=True):
                     if c["err"] is None:
                         live.setdefault((algo, s), c)
         run.log("B (grid + schedules) recorded")
+        # the Coq side of the grid runs in the background (separate coqc processes) while the cohorts of part C are personalised
+        fut_grid = pool.submit(run_chain_cases, run, acc, gen_ok, model_ok, "_grid")
         estimator_probes(run, live, 1600 if thorough else 400, model_ok=model_ok)
         integer_ids_probe(run, m_small)
+    acc = Acc()
     # ---- C
     kinds = synth.KINDS
     run.log("A/B/D done")
@@ -1090,7 +1124,9 @@ def check(run: Run, gen_ok=True, model_ok=True):
                     if kind != "mixture_logistic" and tag == "loaded" and (thorough or cname in ("missing-data", "shuffled-numeric-looking-ids")):
                         check_mcmc_cohort(run, model, kind, tag, cname, df, algo, seed, acc, sched="plateau1-T3")
             run.log(f"C {kind}/{tag} done")
-    run_chain_cases(run, acc, gen_ok=gen_ok, model_ok=model_ok)
+    st_c = run_chain_cases(run, acc, gen_ok=gen_ok, model_ok=model_ok, part="_cohorts")
+    merge_stats(run, fut_grid.result() if fut_grid is not None else {}, st_c)
+    pool.shutdown()
     n = run.extra.get("optimiser_runs", 0)
     run.extra["hypothesis_minimise_monotone_validated_on"] = f"{n} real optimisations of this run (validation of the oracle hypothesis, not a proof)"
 
